@@ -62,7 +62,8 @@ def setup_process():
 
 
 def systematic():
-    """First cases: one genuine >20 MB run per source kind (bytes, file, socket)."""
+    """First cases: genuine >20 MB runs: bytes; file read in 64 KiB pieces; socket (default 4096); file with the default
+    full read; non-seekable file read in 1 MiB pieces."""
     out = []
     # prefix: [big-flag draw = BIG_DEN-1, source index by cumulative weight]
     cum = 0
@@ -70,8 +71,9 @@ def systematic():
     for w, s in SOURCES:
         starts[s] = cum
         cum += w
-    for s in ("bytes", "file", "socket"):
-        out.append([BIG_DEN - 1, starts[s]])
+    # draws pinned: big, source, consumer (0 = ccsds_generator), k (0), read size (0 = default, 1 = 65536, 2 = 1 MiB)
+    for s, rs_ix in (("bytes", 0), ("file", 1), ("socket", 0), ("file", 0), ("pipefile", 2)):
+        out.append([BIG_DEN - 1, starts[s], 0, 0, rs_ix])
     return out
 
 
